@@ -6,7 +6,7 @@ oracle : generalised inverses of plausibility / belief from the definition (exac
          permutation and split variants must give the identical p-box; round trip must be the identity
 """
 from __future__ import annotations
-import math, json
+import math, json, logging
 from fractions import Fraction as F
 import numpy as np
 from . import core
@@ -288,14 +288,18 @@ def gen_cases(ctx, Gf):
         mk = rng.choice(["equal", "random", "dyadic"])
         w = None if mk == "equal" else (random_masses(rng, n) if mk == "random" else dyadic_masses(rng, n, 12))
         family("random", lo, hi, w)
+    # 3b. a single focal element (the whole mass on one interval)
+    for _ in range(ctx.scale(6, 60)):
+        a, b = sorted((ints(), ints()))
+        add("single", [a], [b], rng.choice([None, [1.0]]), None, "base")
     # 4. malformed (error kind only)
     for _ in range(ctx.scale(12, 120)):
-        kind = rng.choice(["single", "inverted", "short-w", "long-w"])
+        kind = rng.choice(["empty", "inverted", "short-w", "long-w"])
         n = rng.randint(2, 5)
         lo, hi = layout(rng, n, "overlapping", ints)
         w = dyadic_masses(rng, n, 6)
-        if kind == "single":
-            lo, hi, w = lo[:1], hi[:1], rng.choice([None, [1.0]])
+        if kind == "empty":
+            lo, hi, w = [], [], None
         elif kind == "inverted":
             k = rng.randrange(n)
             lo[k], hi[k] = hi[k] + 1, lo[k]
